@@ -155,7 +155,7 @@ def write_evidence(rep, tier, seed, wall, nviol, extra=None):
         "wall_s": round(wall, 3),
         "violations": nviol,
     }
-    d = os.path.join(ROOT, "evidence")
+    d = os.environ.get("VERIF_EVIDENCE_DIR") or os.path.join(ROOT, "evidence")
     os.makedirs(d, exist_ok=True)
     path = os.path.join(d, "%s.json" % rep.property_id)
     tmp = path + ".tmp"
